@@ -25,6 +25,9 @@ func (s *snapshot) Has(key []byte) (bool, error) {
 
 	_, closer, err := s.snapshot.Get(key)
 	if err != nil {
+		if errors.Is(err, pebble.ErrNotFound) {
+			return false, nil
+		}
 		return false, err
 	}
 
